@@ -15,6 +15,7 @@ from ..models import intervals as iv
 from ..monitor import bump, install, oracle, violation
 
 PROP = "C16"
+ANCHORS = ['dep_logic.tags.tags:EnvSpec.compare', 'dep_logic.tags.tags:EnvSpec.compatibility', 'dep_logic.tags.tags:EnvSpec._evaluate_python']
 RULE = ("Grid: requires_python pool (ranges, holes, unions, points, universal) x platform pool (none; manylinux "
         "2.5/2.17/2.28/2.31 x86_64+aarch64; musllinux 1.1/1.2; macOS 10.9/10.15/11.0/12.3/14.0 x86_64 and "
         "11.0/12.0/14.0 arm64; windows x3) x implementation (none, cpython, cpython-ft, pypy). compare(): all ordered "
